@@ -94,6 +94,28 @@ STRENGTHENED = {
     "C19-fm2": "one cmp_using class per case from fresh functions -> histories of cmp_using calls on the same function objects with other require_same_type",
     "C19-fm3": "callables were plain functions -> falsy / len-0 callable objects in every callable role",
     "C20-fm1": "callback bodies had to be neutral -> non-neutral bodies in pre-validator callbacks; FIXED READING: the switch is read when the validators step is reached; theorem C20_construct_reads_switch_at_validators_step",
+    "C01-fm1": "no Converter object shared across fields of different names -> one attrs.Converter(takes_field=True) object per group used by primed, real, sibling and decoy fields",
+    "C02-fm1": "twin chains used distinct callbacks, callbacks never checked the Attribute they got -> look-alike twins sharing the very callback objects; every Attribute handed to a callback must be the one fields() lists",
+    "C02-fm3": "faults were always UserError -> fault classes incl. StopIteration(+subclass), StopAsyncIteration, GeneratorExit, BaseException-only, Attribute/Type/KeyError subclasses; the very exception object must come out",
+    "C01-gm3": "helper objects were instances of the base types -> SubFactory / SubConverter / and_-subclass instances (dispatch by exact class)",
+    "C03-gm3": "classes lived in a module binding neither NotImplemented nor __attr_key_* -> registered synthetic hostile module (T2 and T3: binding of NotImplemented recorded as `other`)",
+    "C04-gm2": "key callables were plain functions -> falsy callable key objects; eq/hash consistency judged on observed == vs observed hash equality",
+    "C04-gm3": "no init hooks -> post-init hooks that hash self (outcome not demanded) and then normalise hash fields; pre-init hooks that hash self",
+    "C06-gm2": "class-level lists only in canonical order -> lists/tuples/pipes of convert/validate in every order and multiplicity, validators seeing raw vs converted values",
+    "C06-gm3": "assigned values were distinct string tokens -> equal-but-distinguishable value classes (1/1.0/True, 0.0/-0.0, str subclass, equal lists) assigned one after the other; identity and exact type observed",
+    "C07-gm2": "these= was a dict or OrderedDict -> MappingProxyType, UserDict, ChainMap, user Mapping, creation order permuted against insertion order",
+    "C08-gm2": "field names from an ordinary pool -> dunder-like and underscore-led FIELD names through every front-end, round trips compared between builds",
+    "C09-gm2": "every class had metaclass type -> metaclasses whose ==/!= between classes lies or raises; any call of them is residue",
+    "C10-gm1": "every chain in a uniquely named module -> an earlier same-module same-qualname chain (renamed or reversed fields) defined and used first",
+    "C10-gm3": "no dunder-like field name -> `__meta__` in the field pool",
+    "C12-gm1": "init=False leaves were removed as out of scope -> classes with init=False and a hand-written __init__ that logs and sets extra state; evolve compared with a direct call (log, extra state)",
+    "C13-gm1": "leaves compared equal only to themselves, call counts unobserved -> twin scalars (bool/float/str-subclass atoms in the Lean model), filterCalls/serCalls; theorem C13_callbacks_once_per_occurrence",
+    "C14-gm1": "no dict class inherited a slot field (K3 avoidance too broad) -> slotted attrs bases below dict classes, frozen or not, for the __attrs_init__ = twin __init__ comparison",
+    "C15-gm1": "at most one @x.default per field -> default=/factory=/@x.default 0..3 times/@x.validator 0..2 times; theorem C15_second_default_counts_sources",
+    "C16-gm1": "no getsource in the fingerprint, twins had identical scripts -> source of every generated method in the fingerprint, same-qualname twins with equal-length different scripts",
+    "C16-gm2": "no method with a __class__ cell shared between bodies -> shared `who` method object in same-qualname classes, earlier class re-observed at the end",
+    "C16-gm3": "failed definitions never followed by a retry on the same class object -> late rejections paired with valid retry decorators (t_retry)",
+    "C20-gm3": "no class was ever frozen -> frozen (three forms), cache_hash crossed with construct and validate",
     "C16-m3": "catalogue classes never were layout-twins with different callables -> tagged twins, behaviour fingerprints",
 }
 
